@@ -354,7 +354,7 @@ func (s *StoreSim) deepCase(tn, shape, mode string, size, maxStackMB int, cfg wo
 		res := s.decodeOnce(s.inst(cfg), rd, buf, true)
 		s.St.Decodes++
 		if res.hang {
-			return violStore("hang", res.site, fmt.Sprintf("decode did not finish within %d steps (loop at %s) (%s)", 64+16*len(input), res.site, c.Fault), c), c
+			return violStore("hang", res.site, fmt.Sprintf("decode did not finish within %s (loop at %s) (%s)", hangBudget(res.site, len(input)), res.site, c.Fault), c), c
 		}
 		if res.panicked != "" {
 			return violStore("panic", res.site, fmt.Sprintf("panic: %s at %s (%s)", res.panicked, res.site, c.Fault), c), c
